@@ -37,6 +37,11 @@ structure SpecSt where
   viol : List String := []
   overlap : Bool := false              -- some acquisition happened while another client was inside (lease gone)
   queued : List Nat := []              -- waiters blocked in Lock (etcd: their key is in the queue)
+  stale : List Nat := []               -- waiters whose wait deadline may have passed meanwhile (a blocking
+                                       -- call of another client or a sleep consumed wall time): their
+                                       -- later refusal is not judged
+  slept : Nat := 0                     -- total `sleep` time so far
+  since : List (Nat × Nat) := []       -- waiter ↦ value of `slept` when it started waiting
 
 def tagTwoHolders := "C18:two-holders-within-lease"
 
@@ -58,19 +63,39 @@ def onAcquired (redis : Bool) (ttl : Nat) (st : SpecSt) (c : Nat) : SpecSt :=
   { st with holders := if already then st.holders else (c, st.now) :: st.holders, viol := st.viol ++ v,
             overlap := st.overlap || (!already && !others.isEmpty), queued := st.queued.filter (· != c) }
 
-/-- clauses about a refused acquisition -/
-def refusedViol (redis : Bool) (ttl wait : Nat) (st : SpecSt) (c : SCmd) (flag : Flag) : List String :=
-  -- a client blocked in Lock may get the key at any moment (etcd: its queued key is older; redis: its
-  -- next retry): refusing a later client then is legitimate
+def sinceOf (st : SpecSt) (c : Nat) : Nat := ((st.since.find? (·.1 == c)).map (·.2)).getD 0
+
+def tagRefused := "C18:refused-when-free"
+def tagBlocked := "C18:blocked-when-free"
+
+/-- is a refusal judged, and wrong?  A client blocked in Lock may get the key at any moment (etcd: its
+    queued key is older; redis: its next retry), so refusing a later client then is legitimate.  A
+    redis waiter only looks again at its retry instants (every `interval`): with a wait timeout of at
+    most one interval it never retries before its deadline.  A `join` is judged only for a waiter the
+    book knows as pending and not stale; a client whose own lease was revoked is not judged. -/
+def wronglyRefused (redis : Bool) (ttl wait interval : Nat) (st : SpecSt) (c : SCmd) : Bool :=
   let behindQueue := !(st.queued.filter (· != c.c)).isEmpty
-  -- a redis waiter only looks again at its retry instants (every 500 ms): with a wait timeout of at
-  -- most one interval it never retries before its deadline
-  let neverRetries := redis && c.op == .join && decide (wait ≤ 500)
-  (if (liveOthers redis ttl st c.c).isEmpty && !behindQueue && !neverRetries && c.op != .lockAsync then ["C18:refused-when-free"] else []) ++
+  let neverRetries := redis && decide (wait ≤ interval)
+  let joinJudged := st.queued.contains c.c && !st.stale.contains c.c && !neverRetries
+  (liveOthers redis ttl st c.c).isEmpty && !behindQueue && !st.lost.contains c.c &&
+    (c.op == .lock || c.op == .tryLock || (c.op == .join && joinJudged))
+
+/-- clauses about a refused acquisition -/
+def refusedViol (redis : Bool) (ttl wait interval : Nat) (st : SpecSt) (c : SCmd) (flag : Flag) : List String :=
+  (if wronglyRefused redis ttl wait interval st c then [tagRefused] else []) ++
   (if c.op == .tryLock && flag == .slow then ["C18:trylock-waited"] else []) ++
   -- a waiting Lock fails when its wait timeout expires: not (much) before, not (much) after
   (if c.op != .tryLock && flag == .early then ["C18:waiter-gave-up-early"] else []) ++
   (if c.op != .tryLock && flag == .late then ["C18:waiter-overstayed"] else [])
+
+/-- calls that consume wall time (a blocking Lock that ran into its deadline, a `join`): every
+    waiter still pending may have passed its own deadline meanwhile -/
+def consumesTime : Op → Bool
+  | .lock | .join => true
+  | _ => false
+
+def tagD15 := "C19:redis-ttl-expiry-not-signalled"
+def tagNotSignalled := "C19:etcd-loss-not-signalled"
 
 /-- C19: what an observed lock context must look like -/
 def observeViol (redis : Bool) (ttl : Nat) (st : SpecSt) (c : Nat) (res : Out) (flag : Flag) : List String :=
@@ -79,33 +104,41 @@ def observeViol (redis : Bool) (ttl : Nat) (st : SpecSt) (c : Nat) (res : Out) (
     -- the loss itself must be reported: a context that merely ended with its upstream (plain
     -- cancellation / deadline) has not told the holder anything
     if !withinLease redis ttl st h && (res == .ctxLive || res == .ctxPlain) then
-      [if redis then "C19:redis-ttl-expiry-not-signalled" else "C19:etcd-loss-not-signalled"]
+      [if redis then tagD15 else tagNotSignalled]
     else if !withinLease redis ttl st h && flag == .slow then ["C19:signalled-late"]
     else if withinLease redis ttl st h && res == .ctxDone then ["C19:cancelled-while-holding"]
     else []
   | none => []
 
-def specStep (redis : Bool) (ttl wait : Nat) (st : SpecSt) (c : SCmd) (res : Out) (flag : Flag) : SpecSt :=
+def specStep (redis : Bool) (ttl wait interval : Nat) (st : SpecSt) (c : SCmd) (res : Out) (flag : Flag) : SpecSt :=
   match isAcq c.op, res with
-  | true, .acquired => onAcquired redis ttl st c.c
+  | true, .acquired =>
+    let st1 := onAcquired redis ttl st c.c
+    if c.op == .join then { st1 with stale := st1.queued ++ st1.stale } else st1
   | true, .refused =>
-    { st with viol := st.viol ++ refusedViol redis ttl wait st c flag, queued := st.queued.filter (· != c.c) }
+    let q := st.queued.filter (· != c.c)
+    { st with viol := st.viol ++ refusedViol redis ttl wait interval st c flag, queued := q,
+              stale := if consumesTime c.op then q ++ st.stale else st.stale }
   | true, .blocked =>
     let behindQueue := !(st.queued.filter (· != c.c)).isEmpty
-    { st with viol := st.viol ++ (if (liveOthers redis ttl st c.c).isEmpty && !behindQueue then ["C18:blocked-when-free"] else []),
-              queued := c.c :: st.queued }
+    { st with viol := st.viol ++ (if (liveOthers redis ttl st c.c).isEmpty && !behindQueue then [tagBlocked] else []),
+              queued := c.c :: st.queued, stale := st.stale.filter (· != c.c), since := (c.c, st.slept) :: st.since }
   | _, _ =>
     match c.op with
     | .unlock => { st with holders := st.holders.filter (·.1 != c.c) }
     | .ff => { st with now := st.now + c.dt }
     | .revoke => { st with lost := c.c :: st.lost }
+    | .sleep =>
+      -- a waiter that has slept through its whole wait timeout has given up
+      { st with slept := st.slept + c.dt,
+                stale := (st.queued.filter fun q => decide (wait ≤ st.slept + c.dt - sinceOf st q)) ++ st.stale }
     | .observe => { st with viol := st.viol ++ observeViol redis ttl st c.c res flag }
     | _ => st
 
 /-- run the spec over a schedule with its results and timing flags (missing flags = none) -/
-def specRun (redis : Bool) (ttl wait : Nat) : SpecSt → List SCmd → List Out → List Flag → SpecSt
-  | st, c :: cs, r :: rs, f :: fs => specRun redis ttl wait (specStep redis ttl wait st c r f) cs rs fs
-  | st, c :: cs, r :: rs, [] => specRun redis ttl wait (specStep redis ttl wait st c r .none) cs rs []
+def specRun (redis : Bool) (ttl wait interval : Nat) : SpecSt → List SCmd → List Out → List Flag → SpecSt
+  | st, c :: cs, r :: rs, f :: fs => specRun redis ttl wait interval (specStep redis ttl wait interval st c r f) cs rs fs
+  | st, c :: cs, r :: rs, [] => specRun redis ttl wait interval (specStep redis ttl wait interval st c r .none) cs rs []
   | st, _, _, _ => st
 
 /-! ### the schedules as the models see them -/
@@ -128,8 +161,16 @@ def ofEtcd : Etcd.Cmd → SCmd
   | .cancelCtx i => ⟨.unknown, i, 0⟩
 
 def classEtcd : Etcd.Res → Out
-  | .acquired => .acquired | .locked => .refused | .timeout => .refused | .sessionExpired => .refused
+  | .acquired => .acquired | .locked => .refused | .timeout => .refused
   | .blocked => .blocked | .ctxLive => .ctxLive | .ctxCancelled => .ctxDone
   | _ => .other
 
+end Eru.Lock.Spec
+
+namespace Eru.Lock.Spec
+/-- C19, several locks held by one critical section (Ctx.lean): the callback must have been told
+    when any of its locks was lost -/
+def multiKeyViol (lostFlags : List Bool) (seenLive : Bool) (late : Bool) : List String :=
+  (if seenLive && lostFlags.any id then ["C19:lost-lock-not-signalled:multi-key"] else []) ++
+  (if late then ["C19:signalled-late"] else [])
 end Eru.Lock.Spec
